@@ -18,6 +18,11 @@
      nat-type set of the FIRST sighting gets the address.
    printMetrics: prints len of each set, their sum, binCount of the 8 uint counters, len of the 3 nat sets.
    zeroMetrics: clears the 8 counters and all sets/maps; prometheus counters are cumulative (never cleared).
+   LoadGeoipDatabases (start-up, and again on every SIGHUP): db, err := geoip.New(files); lock; m.geoipdb = db; unlock.
+     Only the table is replaced (geoip.New returns nil with an error, so a failed load leaves NO table): the
+     de-duplication sets, the NAT sets and the per-country counts of the running period stay as they are.  What a
+     country an address resolves to is decided by the table loaded at the moment of the poll; in the model it is
+     an argument of the poll op.
 
    Proxy types are numbers: 0 standalone, 1 webext, 2 badge, 3 iptproxy, >= 4 anything else.
    NAT types: 0 unknown, 1 restricted, 2 unrestricted (the message decoders accept nothing else). *)
@@ -97,11 +102,16 @@ Inductive op :=
 | ProxyPoll (a : option (bytes * bytes)) (t n : N) (relay : bool) (o : poutcome)
     (* a = Some (address, country the geoip db gives for it); None = RemoteAddr does not split *)
 | ClientDenied (n : N) | ClientMatched (n : N) | ClientTimeout (n : N)
-| Print | Zero.
+| Print | Zero
+| Reload (ok : bool).                                   (* LoadGeoipDatabases; ok = both files loaded *)
 
 Definition zero (s : mstate) : mstate :=
   {| cnt := fun _ => 0; tsets := fun _ => []; nat_r := []; nat_u := []; nat_k := []; ccounts := [];
      prom := prom s; ptotal := ptotal s; geo := geo s |}.
+
+Definition set_geo (g : bool) (s : mstate) : mstate :=
+  {| cnt := cnt s; tsets := tsets s; nat_r := nat_r s; nat_u := nat_u s; nat_k := nat_k s; ccounts := ccounts s;
+     prom := prom s; ptotal := ptotal s; geo := g |}.
 
 Definition apply_op (s : mstate) (o : op) : mstate :=
   match o with
@@ -125,6 +135,7 @@ Definition apply_op (s : mstate) (o : op) : mstate :=
   | ClientTimeout _ => s
   | Print => s
   | Zero => zero s
+  | Reload ok => set_geo ok s
   end.
 
 Definition exec (ops : list op) (s : mstate) : mstate := fold_left apply_op ops s.
@@ -218,3 +229,25 @@ Fixpoint sumN (l : list N) : N := match l with [] => 0 | x :: r => x + sumN r en
 (* over the five type classes: addresses of the class (given as [sets u]) whose first poll resolved to c *)
 Definition ccsum (c : bytes) (ops : list op) (sets : N -> list bytes) : N :=
   sumN (map (fun u => N.of_nat (List.length (filter (ccb c u ops) (sets u)))) all_types).
+
+(* ---------- the same with geoip reloads inside a period ----------
+   Whether an address is attributed at all (country line, NAT sets, proxy_total) is decided by the table state at
+   its FIRST accepted poll of the period under a proxy type; the country is the one that poll resolved to.  Later
+   reloads change neither. *)
+Definition geo_step (g : bool) (o : op) : bool := match o with Reload ok => ok | _ => g end.
+Definition geo_after (g : bool) (ops : list op) : bool := fold_left geo_step ops g.
+(* (table state now, table state when the running period began) *)
+Definition geo_track (g : bool) (ops : list op) : bool * bool :=
+  fold_left (fun st o => let gc := geo_step (fst st) o in (gc, if is_zero o then gc else snd st)) ops (g, g).
+Definition period_geo (g : bool) (ops : list op) : bool := snd (geo_track g ops).
+(* the first accepted poll of (u, a): (a table was loaded at that moment, NAT type, country) *)
+Fixpoint first_sight (g : bool) (u : N) (a : bytes) (ops : list op) : option (bool * N * bytes) :=
+  match ops with
+  | [] => None
+  | o :: r => match poll_of u a o with Some (n, c) => Some (g, n, c) | None => first_sight (geo_step g o) u a r end
+  end.
+Definition ccbg (c : bytes) (g : bool) (u : N) (ops : list op) (a : bytes) : bool :=
+  match first_sight g u a ops with Some (true, _, c') => beq c c' | _ => false end.
+Definition ccsumg (c : bytes) (g : bool) (ops : list op) (sets : N -> list bytes) : N :=
+  sumN (map (fun u => N.of_nat (List.length (filter (ccbg c g u ops) (sets u)))) all_types).
+Definition is_reload (o : op) : bool := match o with Reload _ => true | _ => false end.
